@@ -138,6 +138,7 @@ fn on_branch_cut(e: &E, a: &Assign) -> bool {
     })
 }
 
+#[allow(dead_code)]
 fn count_nodes(e: &E, p: &dyn Fn(&E) -> bool) -> usize {
     let mut subs = Vec::new();
     e.subterms(&mut subs);
@@ -290,6 +291,155 @@ fn parse_shown(_s: &str) -> Option<E> {
     None
 }
 
+// ---------------------------------------------------------------------------------------------
+// Rule-directed stream: the left-hand side of every arm of `simplify_infix` / `simplify_prefix` /
+// `simplify_function_call` (and close neighbours), with metavariables `Var(100 + k)`, in every
+// operand ordering of its commutative nodes, under many bindings, bare and under one more operator.
+
+fn mv(k: usize) -> E {
+    E::Var(100 + k)
+}
+fn meta_count(e: &E) -> usize {
+    let mut vs = Vec::new();
+    e.vars(&mut vs);
+    vs.iter().filter(|v| **v >= 100).map(|v| v - 99).max().unwrap_or(0)
+}
+fn subst_meta(e: &E, b: &[E]) -> E {
+    match e {
+        E::Var(x) if *x >= 100 => b[*x - 100].clone(),
+        E::Fn(f, a) => E::fnc(*f, subst_meta(a, b)),
+        E::Prefix(m, a) => E::Prefix(*m, Box::new(subst_meta(a, b))),
+        E::Infix(l, o, r) => E::infix(subst_meta(l, b), *o, subst_meta(r, b)),
+        _ => e.clone(),
+    }
+}
+/// every variant obtained by swapping the operands of commutative (+, *) nodes independently
+fn swap_variants(e: &E) -> Vec<E> {
+    match e {
+        E::Fn(f, a) => swap_variants(a).into_iter().map(|x| E::fnc(*f, x)).collect(),
+        E::Prefix(m, a) => swap_variants(a).into_iter().map(|x| E::Prefix(*m, Box::new(x))).collect(),
+        E::Infix(l, o, r) => {
+            let (ls, rs) = (swap_variants(l), swap_variants(r));
+            let mut out = Vec::new();
+            for a in &ls {
+                for b in &rs {
+                    out.push(E::infix(a.clone(), *o, b.clone()));
+                    if matches!(o, Op::Plus | Op::Star) && a != b {
+                        out.push(E::infix(b.clone(), *o, a.clone()));
+                    }
+                }
+            }
+            out
+        }
+        _ => vec![e.clone()],
+    }
+}
+fn rule_patterns() -> Vec<E> {
+    use Op::*;
+    let (a, b, c, d, x) = (|| mv(0), || mv(1), || mv(2), || mv(3), || mv(4));
+    let n = |v: f64| E::Num(v, 0.0);
+    let i = E::infix;
+    let mut p = vec![
+        // constant folding and cancellation
+        i(n(0.0), Plus, a()), i(n(0.0), Minus, a()), i(a(), Minus, n(0.0)), i(a(), Minus, a()),
+        i(n(0.0), Star, a()), i(n(1.0), Star, a()), i(n(0.0), Slash, a()), i(a(), Slash, n(0.0)),
+        i(a(), Slash, n(1.0)), i(a(), Slash, a()), i(n(0.0), Caret, a()), i(a(), Caret, n(0.0)),
+        i(n(1.0), Caret, a()), i(a(), Caret, n(1.0)), i(a(), Caret, b()),
+        i(a(), Plus, b()), i(a(), Minus, b()), i(a(), Star, b()), i(a(), Slash, b()),
+        // prefix and functions
+        E::neg(E::neg(a())), E::neg(a()), E::pos(a()), E::neg(E::pos(E::neg(a()))),
+        E::fnc(F::Sin, a()), E::fnc(F::Cos, a()), E::fnc(F::Exp, a()), E::fnc(F::Sqrt, a()), E::fnc(F::Cis, a()),
+        // negation in subexpressions
+        i(a(), Plus, E::neg(b())), i(a(), Minus, E::neg(b())), i(E::neg(a()), Minus, b()),
+        i(E::neg(a()), Star, E::neg(b())), i(E::neg(a()), Slash, E::neg(b())),
+        i(a(), Slash, E::neg(a())), i(E::neg(a()), Slash, a()),
+        i(a(), Star, E::neg(b())), i(a(), Slash, E::neg(b())), i(E::neg(a()), Slash, b()),
+        // affine
+        i(i(i(a(), Star, x()), Plus, b()), Plus, i(i(c(), Star, x()), Plus, d())),
+        i(i(a(), Star, x()), Plus, i(c(), Star, x())),
+        i(i(x(), Plus, b()), Plus, i(x(), Plus, d())),
+        i(i(a(), Star, x()), Plus, i(i(c(), Star, x()), Plus, d())),
+        i(i(a(), Star, x()), Minus, i(c(), Star, x())),
+        // association
+        i(a(), Plus, i(b(), Plus, c())), i(a(), Star, i(b(), Star, c())),
+        i(a(), Minus, i(b(), Minus, c())), i(a(), Slash, i(b(), Slash, c())),
+        i(i(a(), Minus, b()), Minus, c()), i(i(a(), Slash, b()), Slash, c()),
+        i(i(a(), Plus, b()), Minus, c()), i(i(a(), Minus, b()), Plus, c()), i(a(), Minus, i(b(), Plus, c())),
+        i(a(), Plus, i(b(), Minus, c())), i(i(a(), Slash, b()), Star, c()), i(a(), Star, i(b(), Slash, c())),
+        i(i(a(), Minus, b()), Minus, i(c(), Minus, d())), i(i(a(), Slash, b()), Slash, i(c(), Slash, d())),
+        // distribution
+        i(a(), Star, i(b(), Plus, c())), i(a(), Star, i(b(), Minus, c())), i(i(a(), Plus, b()), Slash, c()),
+        // products and quotients
+        i(i(a(), Star, b()), Slash, a()), i(a(), Slash, i(a(), Star, b())),
+        i(i(a(), Star, b()), Slash, c()), i(a(), Slash, i(b(), Star, c())),
+        i(i(b(), Slash, a()), Star, a()), i(i(a(), Star, b()), Slash, i(a(), Star, c())),
+        i(i(a(), Star, b()), Slash, i(c(), Star, d())),
+        // powers
+        i(i(a(), Caret, b()), Caret, c()), i(a(), Caret, i(b(), Plus, c())), i(i(a(), Star, b()), Caret, c()),
+    ];
+    // mirror images of the non-commutative two-level patterns are listed explicitly above; the
+    // commutative orderings are generated
+    let mut all = Vec::new();
+    for pat in p.drain(..) {
+        for v in swap_variants(&pat) {
+            if !all.contains(&v) {
+                all.push(v);
+            }
+        }
+    }
+    all
+}
+fn rule_bindings(k: usize) -> Vec<Vec<E>> {
+    let n = |v: f64| E::Num(v, 0.0);
+    let (x, y, m) = (E::Var(0), E::Var(1), E::Addr(0, 0));
+    let base: Vec<E> = vec![x.clone(), y.clone(), m.clone(), n(2.0), n(0.5)];
+    let mut out: Vec<Vec<E>> = Vec::new();
+    let mut push = |b: Vec<E>| {
+        if !out.contains(&b) {
+            out.push(b)
+        }
+    };
+    for r in 0..3 {
+        push((0..k).map(|j| base[(j + r) % 5].clone()).collect());
+    }
+    push(vec![n(2.0), n(0.5), n(-1.0), x.clone(), y.clone()][..k].to_vec());
+    push(vec![x.clone(), n(2.0), y.clone(), n(-1.0), n(0.5)][..k].to_vec());
+    let b0: Vec<E> = base[..k].to_vec();
+    let alts = vec![n(0.0), n(1.0), n(-1.0), n(2.0), x.clone(), y.clone()];
+    let comps = vec![
+        E::infix(y.clone(), Op::Plus, n(1.0)),
+        E::infix(n(2.0), Op::Star, x.clone()),
+        E::neg(y.clone()),
+        E::fnc(F::Sin, y.clone()),
+        E::infix(x.clone(), Op::Slash, n(2.0)),
+    ];
+    for j in 0..k {
+        for alt in alts.iter().chain(comps.iter()) {
+            let mut b = b0.clone();
+            b[j] = alt.clone();
+            push(b);
+        }
+        for j2 in 0..j {
+            let mut b = b0.clone();
+            b[j] = b0[j2].clone();
+            push(b);
+        }
+    }
+    out
+}
+fn rule_wrappers() -> Vec<Box<dyn Fn(E) -> E>> {
+    vec![
+        Box::new(|e| E::neg(e)),
+        Box::new(|e| E::infix(e, Op::Plus, E::Var(1))),
+        Box::new(|e| E::infix(E::Num(2.0, 0.0), Op::Star, e)),
+        Box::new(|e| E::infix(e, Op::Slash, E::Var(0))),
+        Box::new(|e| E::infix(E::Var(1), Op::Minus, e)),
+        Box::new(|e| E::fnc(F::Cos, e)),
+        Box::new(|e| E::infix(e.clone(), Op::Minus, e)),
+        Box::new(|e| E::infix(e, Op::Caret, E::Num(1.0, 0.0))),
+    ]
+}
+
 fn main() {
     let args = Args::parse();
     if let Some(r) = &args.replay {
@@ -356,7 +506,7 @@ fn main() {
     if !args.thorough() {
         // the rest of depth 2 (5..7 nodes): seeded sample
         let d1 = enumerate(&al, 1, 3);
-        for _ in 0..5000 {
+        for _ in 0..2500 {
             let o = *rng.pick(&al.binary);
             let l = rng.pick(&d1).clone();
             let r = if rng.chance(1, 8) { l.clone() } else { rng.pick(&d1).clone() };
@@ -364,6 +514,24 @@ fn main() {
             if e.size() > full_nodes {
                 sampled_d2 += 1;
                 run_case(&mut run, &ctx, &e, "depth2-sample");
+            }
+        }
+    }
+    // (1b) rule-directed: every rule's left-hand side, every commutative ordering, many bindings
+    let pats = rule_patterns();
+    let wraps = rule_wrappers();
+    let mut nrule = 0u64;
+    for pat in &pats {
+        let k = meta_count(pat);
+        for b in rule_bindings(k.max(1)) {
+            let e = subst_meta(pat, &b);
+            run_case(&mut run, &ctx, &e, "rule-directed");
+            nrule += 1;
+            // the same instance under one more operator (every case in thorough, every other in quick)
+            if args.thorough() || rng.chance(1, 2) {
+                let w = &wraps[rng.below(wraps.len())];
+                run_case(&mut run, &ctx, &w(e), "rule-directed-embedded");
+                nrule += 1;
             }
         }
     }
@@ -376,7 +544,7 @@ fn main() {
         unary: vec![U::Neg, U::Neg, U::Neg, U::Pos, U::Fn(F::Sin), U::Fn(F::Cos), U::Fn(F::Sqrt), U::Fn(F::Exp), U::Fn(F::Cis)],
         binary: vec![Op::Plus, Op::Plus, Op::Minus, Op::Star, Op::Star, Op::Slash, Op::Plus, Op::Star, Op::Minus, Op::Slash, Op::Caret],
     };
-    let nrand = if args.thorough() { 40000 } else { 4000 };
+    let nrand = if args.thorough() { 40000 } else { 2500 };
     for _ in 0..nrand {
         let d = rng.range(3, 5);
         let e = random(&big, &mut rng, d);
@@ -416,12 +584,14 @@ fn main() {
     run.finish(
         "exhaustive: every expression tree of depth <= 2 with at most N nodes (N = extra.full_nodes; 7 = all of depth 2) \
          over {0, 1, 2, -0.5, %x, %y, a[0]; cis cos exp sin sqrt, prefix -, prefix +; ^ + - / *}; a seeded sample of the \
-         remaining depth-2 trees; seeded random trees of depth <= 5 over a larger alphabet (incl. pi, a complex literal, \
+         remaining depth-2 trees; a rule-directed stream (the left-hand side of every arm of the simplifier and close \
+         neighbours, in every ordering of its commutative nodes, each pattern variable bound to %x, %y, a[0], 0, 1, -1, 2, 0.5 \
+         and to small compound expressions, also with two variables equal, bare and under one more operator); seeded random trees of depth <= 5 over a larger alphabet (incl. pi, a complex literal, \
          repeated subtrees); deep chains of 6..11 unary/binary wrappers around a random depth-2 core (the limit of 10 runs out inside); all depth-1 trees over literals within 1e-10 of 0 and 1; the regression corpus of finding \
          witnesses. Distinct by the tree; non-trivial = the implementation's simplified form differs from the input.",
         true,
         serde_json::json!({"full_nodes": full_nodes, "exhaustive_cases": nsmall, "depth2_sample": sampled_d2,
-                           "random_cases": nrand, "deep_cases": ndeep, "tolerance_cases": tol_cases.len(), "corpus": corpus.len(),
+                           "rule_directed_cases": nrule, "rule_patterns": pats.len(), "random_cases": nrand, "deep_cases": ndeep, "tolerance_cases": tol_cases.len(), "corpus": corpus.len(),
                            "mutant": ctx.mutant}),
     );
 }
